@@ -31,7 +31,7 @@ PROP = "C01"
 G = {}
 
 QUICK_MODELS = ["sphere", "cylinder", "ellipsoid", "parallelepiped", "capped_cylinder",
-                "core_multi_shell", "vesicle", "lamellar", "fractal_core_shell", "hollow_cylinder"]
+                "core_multi_shell", "vesicle", "lamellar", "fractal_core_shell", "hollow_cylinder", "onion"]
 VERY_SLOW_MODELS = {"superball", "pringle", "fcc_paracrystal", "bcc_paracrystal", "sc_paracrystal"}
 DISTS = ["gaussian", "rectangle", "lognormal", "schulz", "uniform", "boltzmann"]
 QSETS = {
@@ -544,8 +544,10 @@ def gen_pars(w, info, two_d, tier):
         pars["scale"] = w.choice([0.5, 2.0, 1e-2])
     if w.random() < 0.5:
         pars["background"] = w.choice([0.0, 0.25, 1e-3])
-    if "n" in byname and byname["n"].type == "":
-        pars["n"] = w.randint(1, 4)
+    control = getattr(info, "control", None)
+    if control and control in byname:
+        lo, hi = byname[control].limits
+        pars[control] = w.randint(int(max(lo, 0)), int(min(hi, 5)))      # multiplicity: number of shells / case
     if not pd_names:
         return pars, 0
     r = w.random()
